@@ -994,3 +994,83 @@ func c08CanonicalString(c *Ctx) {
 		c.Fail(rule, "anchor", token.NoPos, "no string field store into a digest struct found")
 	}
 }
+
+// staleErrReturns lists the returns of f whose error result is a value that is known to be nil at that point (the
+// return lies on the nil edge of a test of that very value) while every other result is a nil/zero constant: the
+// caller gets neither a result nor an error.
+func staleErrReturns(f *ssa.Function) []*ssa.Return {
+	var out []*ssa.Return
+	res := f.Signature.Results()
+	if res.Len() < 2 || !isErrorType(res.At(res.Len()-1).Type()) {
+		return nil
+	}
+	// with a defer in the function the results are spilled: `return nil, err` becomes stores to the result cells,
+	// rundefers, loads; look through the cell at what the return statement stored
+	resolve := func(r *ssa.Return, v ssa.Value) ssa.Value {
+		u, ok := v.(*ssa.UnOp)
+		if !ok || u.Op != token.MUL {
+			return v
+		}
+		al, ok := u.X.(*ssa.Alloc)
+		if !ok {
+			return v
+		}
+		var last ssa.Value
+		for _, ins := range r.Block().Instrs {
+			if ins == ssa.Instruction(u) {
+				break
+			}
+			if st, ok := ins.(*ssa.Store); ok && st.Addr == ssa.Value(al) {
+				last = st.Val
+			}
+		}
+		if last != nil {
+			return last
+		}
+		return v
+	}
+	for _, r := range returnsOf(f) {
+		if len(r.Results) != res.Len() {
+			continue
+		}
+		ev := resolve(r, r.Results[len(r.Results)-1])
+		if _, isConst := ev.(*ssa.Const); isConst {
+			continue
+		}
+		allNil := true
+		for _, v := range r.Results[:len(r.Results)-1] {
+			k, ok := resolve(r, v).(*ssa.Const)
+			if !ok || !(k.IsNil() || k.Value == nil) {
+				allNil = false
+			}
+		}
+		if !allNil {
+			continue
+		}
+		if onNilEdgeOf(r.Block(), stripConv(ev)) {
+			out = append(out, r)
+		}
+	}
+	return out
+}
+
+// ruleStaleErr (R-STALE-ERR; C09 on the cache packages, C15 module-wide): `return nil, err` on a path where err is
+// known to be nil - it was tested and found nil by a dominating `if err != nil { return … }`, and no later call
+// reassigned it - returns neither a value nor an error. In the commit store this made an invalid (but parseable)
+// cached commit file come back as a *found* nil Commit instead of "not cached" (F28). Zero instances are expected; the
+// self-test keeps positive examples (with and without a deferred error hook).
+func ruleStaleErr(c *Ctx, rule string, pkgs []*packages.Package) {
+	c.Rule(rule, "no function returns a nil value together with an error variable that is known to be nil", 0)
+	p := c.P
+	n, fns := 0, 0
+	for _, sf := range p.SSAFuncsOf(pkgs) {
+		for _, f := range allSSAFuncs(sf) {
+			fns++
+			for _, r := range staleErrReturns(f) {
+				n++
+				c.Ob(rule, fmt.Sprintf("%s/return#%d", ssaFuncName(f), n), r.Pos(), false, true, "this return hands back nil results and an error value that the dominating test already found nil: the caller sees neither a value nor an error")
+			}
+		}
+	}
+	c.Ob(rule, "functions-scanned", token.NoPos, n == 0, fns > 0, "%d functions scanned, %d stale-error returns", fns, n)
+}
